@@ -461,6 +461,24 @@ theorem doSave_good (env : Env P N V) (ps0 : List (Param V)) (htt : env.tgt ≠ 
   ⟨saveStep_disk env.same env.ser env.parse id env.tgt env.tmp htt ms.believed (exportAll env ms.params) f fs
       (hc _ h.shape) h.disk, h.shape⟩
 
+/-- a save that returns normally leaves a file that reads back as the values (or as something Python-`==`, then
+nothing was written) -/
+theorem doSave_current (env : Env P N V) (ps0 : List (Param V)) (htt : env.tgt ≠ env.tmp) (hc : Codec env ps0)
+    (fs : FS P) (ms : MState N V) (f : Option Fault) (h : Good env ps0 fs ms)
+    (hraised : (doSave env ms f).raised = false) :
+    loadRaw env.parse (applyEvs fs (doSave env ms f).evs env.tgt) = exportAll env ms.params ∨
+    env.same (exportAll env ms.params) (loadRaw env.parse (applyEvs fs (doSave env ms f).evs env.tgt)) = true := by
+  rw [(doSave_good env ps0 htt hc fs ms f h).disk]
+  simp only [doSave, saveStep] at hraised ⊢
+  split
+  · right; assumption
+  · rename_i hs
+    simp only [hs] at hraised
+    have hnr := saveRun_not_renamed env.tgt env.tmp (env.ser (exportAll env ms.params)) f
+    cases hr : (saveRun env.tgt env.tmp (env.ser (exportAll env ms.params)) f).renamed
+    · rw [hnr hr] at hraised; cases hraised
+    · left; simp
+
 theorem saveParameters_good (env : Env P N V) (ps0 : List (Param V)) (htt : env.tgt ≠ env.tmp) (hc : Codec env ps0)
     (fs : FS P) (ms : MState N V) (f : Option Fault) (h : Good env ps0 fs ms) :
     Good env ps0 (applyEvs fs (saveParameters env ms f).evs) (saveParameters env ms f).ms := by
@@ -915,14 +933,14 @@ theorem exCodec : Codec exEnv exParams := by
 theorem exLaws :
     exEnv.tgt ≠ exEnv.tmp ∧ (exParams.map (·.name)).Nodup ∧
     (∀ b kv, exEnv.parse b = some (.obj kv) → (kv.map Prod.fst).Nodup) ∧
-    (∀ n v v', exEnv.wval n v = some v' → v' = v) ∧
+    (∀ n (j : JV Nat) v v', exEnv.imp n j = some v → exEnv.wval n v = some v' → v' = v) ∧
     (∀ d d', exEnv.same d d' = true → ∀ n, (d'.lookup n).bind (exEnv.imp n) = (d.lookup n).bind (exEnv.imp n)) ∧
     (∀ n v, exEnv.imp n (exEnv.exp n v) = some v) := by
   refine ⟨by decide, by decide +kernel, ?_, ?_, ?_, ?_⟩
   · intro b kv h
     simp only [exEnv, Option.some.injEq, JV.obj.injEq] at h
     subst h; simp
-  · intro n v v' h
+  · intro n j v v' _ h
     simp only [exEnv] at h
     split at h
     · exact (Option.some.inj h).symm
